@@ -187,7 +187,11 @@ pub fn run(ctx: &Ctx) -> Report {
             }
         });
     }
-    par_run(&cases, ctx.threads, |_, c, rep| {
+    let mut rep12 = Report::new();
+    if ctx.variant == "v3" && ctx.only_panel.as_deref().map(|p| p == "epd12in48b_v2").unwrap_or(true) && ctx.shard.1 <= 1 {
+        crate::props::p12checks::c12(&mut rep12);
+    }
+    let mut out = par_run(&cases, ctx.threads, |_, c, rep| {
         let spec = c.spec;
         let syms = syms(spec);
         let ops = flatten(&syms, &c.h);
@@ -230,5 +234,7 @@ pub fn run(ctx: &Ctx) -> Report {
                 });
             }
         }
-    })
+    });
+    out.merge(rep12);
+    out
 }
